@@ -88,7 +88,7 @@ func (e *Engine) translate(fn *ssa.Function) (res *FuncResult, tr *Trans) {
 			sc.vars[cnames[i]] = te
 		}
 		// implicit precondition: pointer receivers are non-nil (checked at in-package call sites)
-		if i == 0 && fn.Signature.Recv() != nil {
+		if i == 0 && fn.Signature.Recv() != nil && !(tr.contract != nil && tr.contract.NilRecv) {
 			if _, ok := p.Type().Underlying().(*types.Pointer); ok {
 				entry.assume("(not (= " + c + " 0))")
 			}
@@ -430,6 +430,12 @@ func (tr *Trans) loopScope(l *ILLoop) *Scope {
 		}
 	}
 	for _, v := range l.Modified {
+		if strings.HasSuffix(v.Name, "$rangeindex") && !inner[v] {
+			sc.vars["$idx"] = TExpr{E: cur(v), Sort: "Int"}
+		}
+		if strings.HasSuffix(v.Name, "$rangeint.iter") && !inner[v] {
+			sc.vars["$i"] = TExpr{E: cur(v), Sort: "Int"}
+		}
 		if strings.HasPrefix(v.Name, "visited$") && !inner[v] {
 			sc.vars["visited"] = TExpr{E: cur(v), Sort: v.Sort}
 		}
